@@ -55,7 +55,8 @@ def options(draw):
 @st.composite
 def any_deck(draw, tier='quick'):
     which = draw(st.sampled_from(['level0', 'hier', 'hier', 'lattice',
-                                  'lattice', 'hex', 'prune', 'prune']))
+                                  'lattice', 'hex', 'prune', 'prune', 'tr',
+                                  'tr']))
     if which == 'level0':
         case = draw(c01.level0_case(tier))
         case['box'] = 6.0
@@ -67,6 +68,10 @@ def any_deck(draw, tier='quick'):
                                               'empty_pieces': True}))
     elif which == 'prune':
         case = draw(gen_hier.prune_case(tier))
+    elif which == 'tr':
+        from . import c04
+        case = draw(c04.tr_case(tier, focus=draw(st.sampled_from([None, 'axis', 'axis']))))
+        case['box'] = 8.0
     else:
         case = draw(gen_hier.hex_case(tier))
     case = draw(gen_hier.decorate(case, bc=True))
